@@ -698,3 +698,113 @@ def check_no_self_overwrite(ck, prog, config, clause, unit='src/unzck.c'):
           % r.opens if not r.violations else r.violations[0].msg, fn.file,
           r.violations[0].node.line if r.violations else fn.line,
           path=r.violations[0].path if r.violations else None, config=config)
+
+
+# ------------------------------------------------------------------ R8.data-offset
+def check_reader_data_offset(ck, prog, config, clause):
+    """On the read side the data starts where the lead says the header ends: every assignment to data_offset in a
+    function reachable from zck_read_header() has the value lead_size + header_length (the size declared in the lead),
+    not a sum of the sections the parser happened to consume - a header may legally carry unused bytes after its last
+    section, and every consumer (validity scan, data checksum, chunk offsets, the streaming reader) must agree on
+    one start of the data."""
+    root = prog.need_func('zck_read_header')
+    seen, ext = prog.reachable_calls([root])
+    n = 0
+    from .common import lin, Lin
+    for q in sorted(seen):
+        fn = prog.funcs[q]
+        subst = unique_defs(fn)
+        for (l, r, op, node) in assigned_fields(fn):
+            if strip(l).op != 'data_offset' or op != '=' or r is None:
+                continue
+            n += 1
+            v = lin(r, subst)
+            base = pstr(strip(l).a[0])
+            want = Lin({'%s->lead_size' % base: 1, '%s->header_length' % base: 1})
+            ok = v is not None and v == want
+            ck.ob(clause, 'R8.data-offset', fn.name, 'data_offset', ok,
+                  'data_offset := lead_size + header_length (the header size the lead declares)' if ok else
+                  '%s() sets data_offset to %s, not to lead_size + header_length: for a header with unused bytes after its '
+                  'last section the validity scan, the data checksum and the chunk offsets start %s the real data' % (
+                      fn.name, show(r)[:80], 'before' if v is not None else 'somewhere other than'), fn.file, node.line,
+                  config=config)
+    ck.min_instances('assignments of data_offset on the read path', n, 1)
+
+
+# ------------------------------------------------------------------ R7.const-input
+def check_const_input(ck, prog, config, clause, unit_filter):
+    """A function that takes its data through a pointer to const must not write through it: not directly, not
+    through a local alias obtained by casting the const away.  The hash backends are handed the caller's buffer, which
+    the library afterwards compresses, writes or hashes again with another digest - a backend that scribbles over
+    it (an "avoid the copy" optimisation of a block transform) still returns the right digest and corrupts the data."""
+    WRITES_ARG0 = ('memcpy', 'memmove', 'memset', 'strcpy', 'strncpy', 'snprintf', 'sprintf', 'bzero')
+    n = 0
+    bad = []
+    for fn in sorted(prog.funcs.values(), key=lambda f: f.qname):
+        if fn.body is None or not unit_filter(fn.unit):
+            continue
+        cps = [p for p in fn.params if (p.t or '').rstrip().endswith('*') and 'const' in (p.t or '').split('*')[0]]
+        if not cps:
+            continue
+        n += 1
+        alias = dict((p.decl, p.op) for p in cps)
+        changed = True
+        defs = []
+        for s in walk_stmts(fn.body):
+            if s.k == 'decl' and s.e is not None and (s.var.t or '').rstrip().endswith('*'):
+                defs.append((s.var, s.e))
+        for ex in all_exprs(fn):
+            for nd in walk(ex):
+                if nd.k == 'bin' and nd.op == '=' and strip(nd.a[0]).k == 'var' and (strip(nd.a[0]).t or '').rstrip().endswith('*'):
+                    defs.append((strip(nd.a[0]), nd.a[1]))
+
+        def root(e):
+            e = strip(e)
+            while e is not None:
+                if e.k == 'cast' and e.a:
+                    e = strip(e.a[0])
+                elif e.k == 'bin' and e.op in ('+', '-'):
+                    e = strip(e.a[0])
+                elif e.k == 'un' and e.op == '&' and strip(e.a[0]).k in ('idx', 'mem'):
+                    e = strip(strip(e.a[0]).a[0])
+                else:
+                    break
+            return e
+        while changed:
+            changed = False
+            for v, e in defs:
+                r = root(e)
+                if r is not None and r.k == 'var' and r.decl in alias and v.decl not in alias:
+                    alias[v.decl] = alias[r.decl]
+                    changed = True
+
+        def lroot(e):
+            e = strip(e)
+            while e is not None and e.k in ('idx', 'mem', 'cast') or (e is not None and e.k == 'un' and e.op == '*'):
+                e = strip(e.a[0])
+                if e is not None and e.k == 'bin' and e.op in ('+', '-'):
+                    e = strip(e.a[0])
+            return e
+        for ex in all_exprs(fn):
+            for nd in walk(ex):
+                tgt = None
+                if (nd.k == 'bin' and nd.op.endswith('=') and nd.op not in ('==', '!=', '<=', '>=')) or \
+                        (nd.k == 'un' and nd.op in ('++', '--')):
+                    l = strip(nd.a[0])
+                    if l is not None and l.k in ('idx', 'mem') or (l is not None and l.k == 'un' and l.op == '*'):
+                        tgt = lroot(l)
+                elif nd.k == 'call' and callee_name(nd) in WRITES_ARG0 and len(nd.a) > 1:
+                    tgt = root(nd.a[1])
+                if tgt is not None and tgt.k == 'var' and tgt.decl in alias:
+                    bad.append((fn, nd, alias[tgt.decl], tgt.op))
+    for fn, nd, pname, via in bad[:6]:
+        ck.ob(clause, 'R7.const-input', fn.name, 'write-through:%s' % pname, False,
+              '%s() writes through %s, %s the const input parameter %s: the caller\'s data is modified while it is '
+              'being hashed (the digest stays right, what is compressed / written / hashed again afterwards is not the '
+              'caller\'s data any more)' % (fn.name, via, 'an alias of' if via != pname else 'which is', pname),
+              nd.file or fn.file, nd.line, config=config)
+    if not bad:
+        ck.ob(clause, 'R7.const-input', '*', 'const-inputs', True,
+              '%d function(s) with a pointer-to-const input: none writes through it or through an alias of it' % n,
+              config=config)
+    ck.min_instances('functions with a const input pointer in the selected units', n, 3)
